@@ -49,6 +49,9 @@ static size_t h_size(int i) { return arr[i]._buf ? arr[i]._buf->_size : 0; }
 static const uint8_t *h_data(int i) { return arr[i]._buf ? (const uint8_t *) (arr[i]._buf + 1) : 0; }
 static int h_flags(int i) { return arr[i]._buf ? (int) arr[i]._buf->_vptr->get_flags(arr[i]._buf) : 0; }
 static int h_special(int i) { return h_flags(i) & (MPT_ENUM(BufferImmutable) | MPT_ENUM(BufferNoCopy)); }
+/* Only a buffer that forbids copies can make an operation on a handle fail: an immutable buffer is
+ * replaced by a private, writable copy (anchor: "private copy when refcount>1 or immutable"). */
+static int h_refusable(int i) { return h_flags(i) & MPT_ENUM(BufferNoCopy); }
 
 /* compare all handles against their shadows; `op`/`h` name the operation just done */
 static void check_all(const char *op, int h, const char *ctx)
@@ -146,7 +149,7 @@ static void do_op(vf_rng *r, int op, char *desc, size_t dcap, size_t *dl)
 	char ctx[200];
 	uint8_t *in = 0;
 	void *ptr;
-	int special = h_special(h);
+	int special = h_refusable(h), flagged = h_special(h);
 	int typed = arr[h]._buf && arr[h]._buf->_content_traits;
 	size_t u = h_used(h);
 	int target = h;
@@ -298,7 +301,7 @@ static void do_op(vf_rng *r, int op, char *desc, size_t dcap, size_t *dl)
 		size_t nu = h_used(h);
 		VF_CHECK(nu <= sh[h].n && (!nu || !memcmp(h_data(h), sh[h].d, nu)), key(opn[op], "content-not-prefix"),
 		         "%s: content after reserve (%zu bytes) is not a prefix of the old %zu bytes", ctx, nu, sh[h].n);
-		if (same && len >= sh[h].n && !special) {
+		if (same && len >= sh[h].n && !flagged) {
 			VF_CHECK(nu == sh[h].n, key(opn[op], "content-lost"), "%s: %zu of %zu bytes kept although they fit", ctx, nu, sh[h].n);
 		}
 		sh[h].n = nu;
@@ -376,7 +379,7 @@ static void do_op(vf_rng *r, int op, char *desc, size_t dcap, size_t *dl)
 		size_t esz = (op == OpSlicePrep) ? 0 : 1 + vf_below(r, 8), nblk = vf_below(r, 12);
 		if (vf_chance(r, 1, 6)) { esz = len > 0 ? len : 1; if (op == OpSlicePrep) esz = 0; }
 		int styped = sl._a._buf && sl._a._buf->_content_traits;
-		int sspecial = sl._a._buf ? (int) (sl._a._buf->_vptr->get_flags(sl._a._buf) & (MPT_ENUM(BufferImmutable) | MPT_ENUM(BufferNoCopy))) : 0;
+		int sspecial = sl._a._buf ? (int) (sl._a._buf->_vptr->get_flags(sl._a._buf) & MPT_ENUM(BufferNoCopy)) : 0;
 		if (op == OpSliceWrite) in = fresh_block(esz * nblk);
 		snprintf(ctx, sizeof(ctx), "%s(nblk=%zu,size=%zu) window=%zu+%zu used=%zu size=%zu flags=%x", opn[op], nblk, esz,
 		         (size_t) sl._off, (size_t) sl._len, sl._a._buf->_used, sl._a._buf->_size, (int) sl._a._buf->_vptr->get_flags(sl._a._buf));
